@@ -472,6 +472,7 @@ Qed.
 (* comment / blank lines anywhere, every line decorated: the line loop computes the same state *)
 Inductive decorates : list bytes -> list bytes -> Prop :=
   | dec_nil : decorates [] []
+  | dec_same l Ds Ls : decorates Ds Ls -> decorates (l :: Ds) (l :: Ls)
   | dec_skip l Ds Ls : all_ws l = true \/ starts_with [HASH] (lstrip l) = true -> decorates Ds Ls -> decorates (l :: Ds) Ls
   | dec_line lead L w cmt cr Ds Ls :
       core_line L -> all_ws lead = true -> all_ws w = true ->
@@ -480,8 +481,9 @@ Inductive decorates : list bytes -> list bytes -> Prop :=
 
 Theorem decorated_lines_same_state Ds Ls : decorates Ds Ls -> forall sy st, process_lines sy st Ds = process_lines sy st Ls.
 Proof.
-  induction 1 as [|l Ds Ls Hl _ IH|lead L w cmt cr Ds Ls Hc Hlead Hw Hcmt _ IH]; intros sy st.
+  induction 1 as [|l Ds Ls _ IH|l Ds Ls Hl _ IH|lead L w cmt cr Ds Ls Hc Hlead Hw Hcmt _ IH]; intros sy st.
   - reflexivity.
+  - cbn [process_lines]. destruct (process_line sy st l); auto.
   - cbn [process_lines]. rewrite blank_and_comment_lines_skipped by auto. apply IH.
   - cbn [process_lines]. rewrite line_decoration_indep by auto. destruct (process_line sy st L); auto.
 Qed.
